@@ -47,6 +47,14 @@ def transforms_for(rng, case, tier):
         for tau in rng.sample([1, -1, 86400, -86400 * 365, 3600 * 7 + 13, 10**8], 2):
             c = copy.deepcopy(case)
             c["t"] = [t + tau for t in c["t"]]
+            if "t_ns" in c:
+                # stamps with a fractional second, shifted by a constant that is NOT a whole number of seconds: every elapsed time is
+                # what it was (the model's whole-second axis moves by tau)
+                for q in (1, 2, 3):
+                    cq = copy.deepcopy(c)
+                    cq["t_ns"] = [x + tau * 1_000_000_000 + q * 250_000_000 for x in c["t_ns"]]
+                    yield {"kind": "shiftTime", "tau": tau}, cq
+                continue
             if fn == "climatology":
                 for m in c["members"]:
                     m["tspan"] = [m["tspan"][0] + tau, m["tspan"][1] + tau]
@@ -116,7 +124,7 @@ def run(out: Outcome, drv):
 
     nbase = 60 if out.tier == "quick" else 1200
     out.rule = ("for every test the property names: generated base case (dyadic values so every transformation is exact in float64), then "
-                "value offsets, negation, whole-second time shifts (seconds to years), joint data+span shifts, reversal (spike) and a "
+                "value offsets, negation, whole-second time shifts (seconds to years; rate-of-change and speed also on stamps with fractional seconds shifted by a fractional number of seconds), joint data+span shifts, reversal (spike) and a "
                 "single-point perturbation at EVERY position of series of length <= 8 (quick) / 14 (thorough); the transformed call is "
                 "rebuilt in Lean (IoosQc.applyT) and must equal the harness' one; both runs on the real function; judged by C17.holds; "
                 "non-trivial = base flag vector has >= 2 distinct flags")
@@ -139,11 +147,33 @@ def run(out: Outcome, drv):
             if not std_margin_ok(base):
                 continue
             car = fx.pick_carriers(base, rng)
+            if fn in ("roc", "speed") and rng.random() < 0.6:
+                sub = gen.subsecond(base, rng)
+                if sub is not None:
+                    base = sub
+                    car = (car[0], rng.choice(["dt64ns", "dtindex", "stamps", "series_naive"]), car[2])
+                    out.tags["base:subsecond_stamps"] += 1
             if car[0] == "nd_f4":
                 car = ("nd_f8", *car[1:])       # a shifted value need not be a float32 any more
             for tr, c2 in transforms_for(rng, base, out.tier):
                 if std_margin_ok(c2):
                     items.append((base, tr, c2, car))
+        if fn in ("roc", "speed"):
+            # further bases on stamps with fractional seconds, with the time shifts only
+            extra = 0
+            for _ in range(400 if out.tier == "quick" else 4000):
+                sub = gen.subsecond(gen.GENERATORS[fn](rng, 8), rng)
+                if sub is None or sub.get("decimal_f32"):
+                    continue
+                car = fx.pick_carriers(sub, rng)
+                car = ("nd_f8" if car[0] == "nd_f4" else car[0], rng.choice(["dt64ns", "dtindex", "stamps", "series_naive"]), car[2])
+                for tr, c2 in transforms_for(rng, sub, out.tier):
+                    if tr["kind"] == "shiftTime":
+                        items.append((sub, tr, c2, car))
+                extra += 1
+                if extra >= (80 if out.tier == "quick" else 800):
+                    break
+            out.tags["base:subsecond_stamps"] += extra
         obs_cache = {}
         reqs, kept = [], []
         for base, tr, c2, car in items:
